@@ -528,23 +528,12 @@ fn base(family: Ty, values: Vec<ValSpec>) -> C15 {
 }
 
 fn generate_single(r: &mut Rng, tier: Tier) -> C15 {
-    let family = *r.pick(IO_TYS);
-    let big = r.chance(1, if tier == Tier::Thorough { 40 } else { 400 });
-    let max_frames = if tier == Tier::Thorough && r.chance(1, 4) { 20 } else { 8 };
-    let marathon = !big && r.chance(1, 150);
-    let nframes = if big { r.range(1, 2) } else if marathon { r.range(257, 600) } else { 1 + r.below(max_frames) } as usize;
-    // size profile of this run
-    let profile = if marathon { 0 } else { r.below(4) };
-    let values: Vec<ValSpec> = (0..nframes)
-        .map(|_| {
-            let size = match profile {
-                0 => r.below(4) as u32,
-                1 => r.below(30) as u32,
-                _ => gen_size(r, big),
-            };
-            ValSpec { ty: family, size, seed: r.next_u64() }
-        })
-        .collect();
+    let shape = gen_shape(r, tier == Tier::Thorough);
+    let big = shape.big;
+    let family = if big { *r.pick(BYTEY_TYS) } else { *r.pick(IO_TYS) };
+    let nframes = shape.nframes;
+    let values: Vec<ValSpec> = (0..nframes).map(|i| ValSpec { ty: family, size: shape.size(r, i), seed: r.next_u64() }).collect();
+    let largest = values.iter().filter_map(reference_encoding).map(|p| p.len() + 4).max().unwrap_or(0);
     let len = stream_len(&values);
     // swarm: which fault kinds are enabled in this run
     let en_short = r.chance(3, 4);
@@ -568,7 +557,7 @@ fn generate_single(r: &mut Rng, tier: Tier) -> C15 {
                 _ => Step::Xfer(1),
             }
         } else if en_short {
-            Step::Xfer(1 + r.below(gran as u64) as u32)
+            Step::Xfer(shape.xfer(r, gran, largest))
         } else {
             Step::Xfer(u32::MAX)
         };
@@ -607,7 +596,7 @@ fn generate_single(r: &mut Rng, tier: Tier) -> C15 {
         family,
         values,
         cut,
-        init_buf: if r.chance(1, 3) { r.range(1, 300) as u32 } else { 0 },
+        init_buf: if let Some(n) = shape.roomy_init { n } else if r.chance(1, 3) { r.range(1, 300) as u32 } else { 0 },
         max_len_mode: if r.chance(1, 4) { 1 + r.below(2) as u8 } else { 0 },
         use_ctx: r.chance(1, 8),
         rewrap_at: if r.chance(1, 6) { Some(r.below(nframes as u64 + 1) as u32) } else { None },
